@@ -20,6 +20,7 @@ type ElemV struct {
 	Carried bool         // depends on what an earlier iteration left behind
 	Self    types.Object // the variable itself when it is loop-carried
 	Init    Value        // its value before the loop
+	Obj     types.Object // the local a computed value was bound to by :=
 }
 
 func mergeElem(vs ...Value) ElemV {
@@ -848,6 +849,9 @@ func (it *Interp) loopAssign(fr *Frame, x *ast.AssignStmt, cur *loopCtx) {
 			if ev, ok := v.(ElemV); ok {
 				if len(x.Lhs) == len(x.Rhs) && (x.Tok == token.DEFINE || x.Tok == token.ASSIGN) {
 					ev.Def, ev.Fr = x.Rhs[li], fr
+				}
+				if x.Tok == token.DEFINE && fr.Info.Defs[id] != nil {
+					ev.Obj = fr.Info.Defs[id]
 				}
 				if x.Tok != token.DEFINE || fr.Info.Defs[id] == nil {
 					// assigned, not declared, here: earlier statements of the body see the previous iteration's value
